@@ -1,8 +1,9 @@
 // C17 (a) — registry round trip.
-// For every entry of every registry the harness can name: build the default object (the documented way to
-// obtain an object from a registered name without text is read_registered_object(0,name), i.e. the
-// interactive path; std::cin is at EOF so every question keeps its default), print it with
-// parameter_info(), edit a few scalar values in that text (grammar per value type, random keyword
+// For every entry of every registry the harness can name (entries = what list_registered_names reports at
+// run time): take the text a default-constructed object of that type prints with parameter_info()
+// (read_registered_object(0,name) is interactive and loops when the defaults do not pass post_processing,
+// so the harness carries a table "registered name -> default constructor", copied from *_registries.cxx;
+// a listed name without a constructor in the table is reported as not covered), edit a few scalar values in that text (grammar per value type, random keyword
 // spelling: case / blanks / tabs / '_' / '!'), parse, print (normalising round), parse again, print again:
 // the two prints must be identical strings; the spelling noise must not change the result.
 // Entries whose own default text is refused (they need external files / data) are skipped and listed.
@@ -27,6 +28,64 @@
 #include "stir/modelling/KineticModel.h"
 #include "stir/data/SinglesRates.h"
 #include "stir/spatial_transformation/SpatialTransformation.h"
+// the registered classes themselves (list copied from the *_registries.cxx files of the library): needed to
+// default-construct an object of each registered type without going through the interactive path
+#include "stir/recon_buildblock/PoissonLogLikelihoodWithLinearModelForMeanAndProjData.h"
+#include "stir/recon_buildblock/PoissonLogLikelihoodWithLinearModelForMeanAndListModeDataWithProjMatrixByBin.h"
+#include "stir/recon_buildblock/PoissonLogLikelihoodWithLinearKineticModelAndDynamicProjectionData.h"
+#include "stir/recon_buildblock/PoissonLogLikelihoodWithLinearModelForMeanAndGatedProjDataWithMotion.h"
+#include "stir/recon_buildblock/FilterRootPrior.h"
+#include "stir/recon_buildblock/QuadraticPrior.h"
+#include "stir/recon_buildblock/PLSPrior.h"
+#include "stir/recon_buildblock/RelativeDifferencePrior.h"
+#include "stir/recon_buildblock/LogcoshPrior.h"
+#include "stir/recon_buildblock/ProjMatrixByBinUsingRayTracing.h"
+#include "stir/recon_buildblock/ProjMatrixByBinUsingInterpolation.h"
+#include "stir/recon_buildblock/ProjMatrixByBinFromFile.h"
+#include "stir/recon_buildblock/ProjMatrixByBinSPECTUB.h"
+#include "stir/recon_buildblock/ProjMatrixByBinPinholeSPECTUB.h"
+#include "stir/recon_buildblock/ForwardProjectorByBinUsingProjMatrixByBin.h"
+#include "stir/recon_buildblock/ForwardProjectorByBinUsingRayTracing.h"
+#include "stir/recon_buildblock/BackProjectorByBinUsingProjMatrixByBin.h"
+#include "stir/recon_buildblock/BackProjectorByBinUsingInterpolation.h"
+#include "stir/recon_buildblock/PresmoothingForwardProjectorByBin.h"
+#include "stir/recon_buildblock/PostsmoothingBackProjectorByBin.h"
+#include "stir/recon_buildblock/ProjectorByBinPairUsingProjMatrixByBin.h"
+#include "stir/recon_buildblock/ProjectorByBinPairUsingSeparateProjectors.h"
+#include "stir/recon_buildblock/TrivialBinNormalisation.h"
+#include "stir/recon_buildblock/ChainedBinNormalisation.h"
+#include "stir/recon_buildblock/BinNormalisationFromProjData.h"
+#include "stir/recon_buildblock/BinNormalisationSPECT.h"
+#include "stir/recon_buildblock/BinNormalisationFromAttenuationImage.h"
+#include "stir/recon_buildblock/BinNormalisationFromECAT8.h"
+#include "stir/recon_buildblock/FourierRebinning.h"
+#include "stir/analytic/FBP2D/FBP2DReconstruction.h"
+#include "stir/analytic/FBP3DRP/FBP3DRPReconstruction.h"
+#include "stir/OSMAPOSL/OSMAPOSLReconstruction.h"
+#include "stir/KOSMAPOSL/KOSMAPOSLReconstruction.h"
+#include "stir/OSSPS/OSSPSReconstruction.h"
+#include "stir/SeparableCartesianMetzImageFilter.h"
+#include "stir/SeparableGaussianImageFilter.h"
+#include "stir/MedianImageFilter3D.h"
+#include "stir/MinimalImageFilter3D.h"
+#include "stir/ChainedDataProcessor.h"
+#include "stir/ThresholdMinToSmallPositiveValueDataProcessor.h"
+#include "stir/SeparableConvolutionImageFilter.h"
+#include "stir/NonseparableConvolutionUsingRealDFTImageFilter.h"
+#include "stir/TruncateToCylindricalFOVImageProcessor.h"
+#include "stir/HUToMuImageProcessor.h"
+#include "stir/IO/InterfileOutputFileFormat.h"
+#include "stir/IO/InterfileDynamicDiscretisedDensityOutputFileFormat.h"
+#include "stir/IO/InterfileParametricDiscretisedDensityOutputFileFormat.h"
+#include "stir/IO/MultiDynamicDiscretisedDensityOutputFileFormat.h"
+#include "stir/IO/MultiParametricDiscretisedDensityOutputFileFormat.h"
+#include "stir/Shape/Ellipsoid.h"
+#include "stir/Shape/EllipsoidalCylinder.h"
+#include "stir/Shape/Box3D.h"
+#include "stir/Shape/DiscretisedShape3D.h"
+#include "stir/scatter/SingleScatterSimulation.h"
+#include "stir/modelling/PatlakPlot.h"
+#include "stir/spatial_transformation/GatedSpatialTransformation.h"
 #include <memory>
 #include <functional>
 #include <set>
@@ -38,40 +97,18 @@ namespace {
 
 typedef DiscretisedDensity<3, float> Dens;
 
-struct GuardTrip : std::runtime_error
+struct Entry
 {
-  using std::runtime_error::runtime_error;
+  std::string name;                            // registered name as listed by the registry
+  std::function<std::string()> default_text;   // parameter_info() of a default-constructed object of that type (empty fn: type not in the table)
 };
-//! stream buffer that swallows output and throws once more than `limit` bytes have been written: an
-//! interactive loop that keeps asking (no input will ever come) is cut instead of hanging the harness
-struct CountingBuf : std::streambuf
-{
-  std::size_t n = 0, limit;
-  explicit CountingBuf(std::size_t l) : limit(l) {}
-  void add(std::size_t k)
-  {
-    n += k;
-    if (n > limit)
-      throw GuardTrip("interactive construction keeps asking (no terminal): not default-constructible without input");
-  }
-  int overflow(int c) override
-  {
-    add(1);
-    return c;
-  }
-  std::streamsize xsputn(const char*, std::streamsize k) override
-  {
-    add(std::size_t(k));
-    return k;
-  }
-};
-
 struct Reg
 {
   std::string name;
   std::function<void(std::ostream&)> list;
   std::function<std::shared_ptr<RegisteredObjectBase>(std::istream*, const std::string&)> make;
-  std::vector<std::string> entries; // filled at first use
+  std::vector<Entry> entries; // filled at first use from list_registered_names
+  std::map<std::string, std::function<std::string()>> ctors;
 };
 
 template <class Root>
@@ -86,6 +123,18 @@ reg(const char* n)
   };
   return r;
 }
+//! add the default constructor of a registered class T to its registry
+template <class T>
+void
+ctor(Reg& r)
+{
+  r.ctors[c17::ref_standardise(T::registered_name)] = []() {
+    T o;
+    return o.parameter_info();
+  };
+}
+
+typedef ParametricVoxelsOnCartesianGrid PVox;
 
 std::vector<Reg>&
 registries()
@@ -93,75 +142,194 @@ registries()
   static std::vector<Reg> v;
   if (v.empty())
     {
-      v.push_back(reg<ProjMatrixByBin>("ProjMatrixByBin"));
-      v.push_back(reg<ForwardProjectorByBin>("ForwardProjectorByBin"));
-      v.push_back(reg<BackProjectorByBin>("BackProjectorByBin"));
-      v.push_back(reg<ProjectorByBinPair>("ProjectorByBinPair"));
-      v.push_back(reg<BinNormalisation>("BinNormalisation"));
-      v.push_back(reg<GeneralisedPrior<Dens>>("GeneralisedPrior<DiscretisedDensity<3,float>>"));
-      v.push_back(reg<GeneralisedPrior<ParametricVoxelsOnCartesianGrid>>("GeneralisedPrior<ParametricVoxelsOnCartesianGrid>"));
-      v.push_back(reg<GeneralisedObjectiveFunction<Dens>>("GeneralisedObjectiveFunction<DiscretisedDensity<3,float>>"));
-      v.push_back(reg<GeneralisedObjectiveFunction<ParametricVoxelsOnCartesianGrid>>(
-          "GeneralisedObjectiveFunction<ParametricVoxelsOnCartesianGrid>"));
-      v.push_back(reg<DataProcessor<Dens>>("DataProcessor<DiscretisedDensity<3,float>>"));
-      v.push_back(reg<DataProcessor<ParametricVoxelsOnCartesianGrid>>("DataProcessor<ParametricVoxelsOnCartesianGrid>"));
-      v.push_back(reg<OutputFileFormat<Dens>>("OutputFileFormat<DiscretisedDensity<3,float>>"));
-      v.push_back(reg<OutputFileFormat<DynamicDiscretisedDensity>>("OutputFileFormat<DynamicDiscretisedDensity>"));
-      v.push_back(reg<OutputFileFormat<ParametricVoxelsOnCartesianGrid>>("OutputFileFormat<ParametricVoxelsOnCartesianGrid>"));
-      v.push_back(reg<Shape3D>("Shape3D"));
-      v.push_back(reg<Reconstruction<Dens>>("Reconstruction<DiscretisedDensity<3,float>>"));
-      v.push_back(reg<Reconstruction<ParametricVoxelsOnCartesianGrid>>("Reconstruction<ParametricVoxelsOnCartesianGrid>"));
-      v.push_back(reg<ProjDataRebinning>("ProjDataRebinning"));
-      v.push_back(reg<ScatterSimulation>("ScatterSimulation"));
-      v.push_back(reg<KineticModel>("KineticModel"));
+      {
+        Reg r = reg<ProjMatrixByBin>("ProjMatrixByBin");
+        ctor<ProjMatrixByBinUsingRayTracing>(r);
+        ctor<ProjMatrixByBinUsingInterpolation>(r);
+        ctor<ProjMatrixByBinFromFile>(r);
+        ctor<ProjMatrixByBinSPECTUB>(r);
+        ctor<ProjMatrixByBinPinholeSPECTUB>(r);
+        v.push_back(r);
+      }
+      {
+        Reg r = reg<ForwardProjectorByBin>("ForwardProjectorByBin");
+        ctor<ForwardProjectorByBinUsingProjMatrixByBin>(r);
+        ctor<ForwardProjectorByBinUsingRayTracing>(r);
+        ctor<PresmoothingForwardProjectorByBin>(r);
+        v.push_back(r);
+      }
+      {
+        Reg r = reg<BackProjectorByBin>("BackProjectorByBin");
+        ctor<BackProjectorByBinUsingProjMatrixByBin>(r);
+        ctor<BackProjectorByBinUsingInterpolation>(r);
+        ctor<PostsmoothingBackProjectorByBin>(r);
+        v.push_back(r);
+      }
+      {
+        Reg r = reg<ProjectorByBinPair>("ProjectorByBinPair");
+        ctor<ProjectorByBinPairUsingProjMatrixByBin>(r);
+        ctor<ProjectorByBinPairUsingSeparateProjectors>(r);
+        v.push_back(r);
+      }
+      {
+        Reg r = reg<BinNormalisation>("BinNormalisation");
+        ctor<TrivialBinNormalisation>(r);
+        ctor<ChainedBinNormalisation>(r);
+        ctor<BinNormalisationFromProjData>(r);
+        ctor<BinNormalisationFromAttenuationImage>(r);
+        ctor<BinNormalisationSPECT>(r);
+        ctor<ecat::BinNormalisationFromECAT8>(r);
+        v.push_back(r);
+      }
+      {
+        Reg r = reg<GeneralisedPrior<Dens>>("GeneralisedPrior<DiscretisedDensity<3,float>>");
+        ctor<FilterRootPrior<Dens>>(r);
+        ctor<QuadraticPrior<float>>(r);
+        ctor<PLSPrior<float>>(r);
+        ctor<RelativeDifferencePrior<float>>(r);
+        ctor<LogcoshPrior<float>>(r);
+        v.push_back(r);
+      }
+      v.push_back(reg<GeneralisedPrior<PVox>>("GeneralisedPrior<ParametricVoxelsOnCartesianGrid>"));
+      {
+        Reg r = reg<GeneralisedObjectiveFunction<Dens>>("GeneralisedObjectiveFunction<DiscretisedDensity<3,float>>");
+        ctor<PoissonLogLikelihoodWithLinearModelForMeanAndProjData<Dens>>(r);
+        ctor<PoissonLogLikelihoodWithLinearModelForMeanAndListModeDataWithProjMatrixByBin<Dens>>(r);
+        ctor<PoissonLogLikelihoodWithLinearModelForMeanAndGatedProjDataWithMotion<Dens>>(r);
+        v.push_back(r);
+      }
+      {
+        Reg r = reg<GeneralisedObjectiveFunction<PVox>>("GeneralisedObjectiveFunction<ParametricVoxelsOnCartesianGrid>");
+        ctor<PoissonLogLikelihoodWithLinearKineticModelAndDynamicProjectionData<PVox>>(r);
+        v.push_back(r);
+      }
+      {
+        Reg r = reg<DataProcessor<Dens>>("DataProcessor<DiscretisedDensity<3,float>>");
+        ctor<MedianImageFilter3D<float>>(r);
+        ctor<MinimalImageFilter3D<float>>(r);
+        ctor<SeparableCartesianMetzImageFilter<float>>(r);
+        ctor<SeparableGaussianImageFilter<float>>(r);
+        ctor<SeparableConvolutionImageFilter<float>>(r);
+        ctor<NonseparableConvolutionUsingRealDFTImageFilter<float>>(r);
+        ctor<TruncateToCylindricalFOVImageProcessor<float>>(r);
+        ctor<ChainedDataProcessor<Dens>>(r);
+        ctor<ThresholdMinToSmallPositiveValueDataProcessor<Dens>>(r);
+        ctor<HUToMuImageProcessor<Dens>>(r);
+        v.push_back(r);
+      }
+      v.push_back(reg<DataProcessor<PVox>>("DataProcessor<ParametricVoxelsOnCartesianGrid>"));
+      {
+        Reg r = reg<OutputFileFormat<Dens>>("OutputFileFormat<DiscretisedDensity<3,float>>");
+        ctor<InterfileOutputFileFormat>(r);
+        v.push_back(r);
+      }
+      {
+        Reg r = reg<OutputFileFormat<DynamicDiscretisedDensity>>("OutputFileFormat<DynamicDiscretisedDensity>");
+        ctor<InterfileDynamicDiscretisedDensityOutputFileFormat>(r);
+        ctor<MultiDynamicDiscretisedDensityOutputFileFormat>(r);
+        v.push_back(r);
+      }
+      {
+        Reg r = reg<OutputFileFormat<PVox>>("OutputFileFormat<ParametricVoxelsOnCartesianGrid>");
+        ctor<InterfileParametricDiscretisedDensityOutputFileFormat<ParametricVoxelsOnCartesianGridBaseType>>(r);
+        ctor<MultiParametricDiscretisedDensityOutputFileFormat<ParametricVoxelsOnCartesianGridBaseType>>(r);
+        v.push_back(r);
+      }
+      {
+        Reg r = reg<Shape3D>("Shape3D");
+        ctor<Ellipsoid>(r);
+        ctor<EllipsoidalCylinder>(r);
+        ctor<DiscretisedShape3D>(r);
+        ctor<Box3D>(r);
+        v.push_back(r);
+      }
+      {
+        Reg r = reg<Reconstruction<Dens>>("Reconstruction<DiscretisedDensity<3,float>>");
+        ctor<FBP2DReconstruction>(r);
+        ctor<FBP3DRPReconstruction>(r);
+        ctor<OSMAPOSLReconstruction<Dens>>(r);
+        ctor<KOSMAPOSLReconstruction<Dens>>(r);
+        ctor<OSSPSReconstruction<Dens>>(r);
+        v.push_back(r);
+      }
+      {
+        Reg r = reg<Reconstruction<PVox>>("Reconstruction<ParametricVoxelsOnCartesianGrid>");
+        ctor<OSMAPOSLReconstruction<PVox>>(r);
+        ctor<OSSPSReconstruction<PVox>>(r);
+        v.push_back(r);
+      }
+      {
+        Reg r = reg<ProjDataRebinning>("ProjDataRebinning");
+        ctor<FourierRebinning>(r);
+        v.push_back(r);
+      }
+      {
+        Reg r = reg<ScatterSimulation>("ScatterSimulation");
+        ctor<SingleScatterSimulation>(r);
+        v.push_back(r);
+      }
+      {
+        Reg r = reg<KineticModel>("KineticModel");
+        ctor<PatlakPlot>(r);
+        v.push_back(r);
+      }
       v.push_back(reg<SinglesRates>("SinglesRates"));
-      v.push_back(reg<SpatialTransformation>("SpatialTransformation"));
+      {
+        Reg r = reg<SpatialTransformation>("SpatialTransformation");
+        ctor<GatedSpatialTransformation>(r);
+        v.push_back(r);
+      }
+      // the entries are what the registries list at run time; the table above only supplies constructors
       for (Reg& r : v)
         {
           std::ostringstream s;
           r.list(s);
           for (const std::string& l : c17::split_lines(s.str()))
             if (!l.empty() && c17::ref_standardise(l) != "none") // "None" is the documented null entry (factory 0)
-              r.entries.push_back(l);
+              {
+                Entry e;
+                e.name = l;
+                auto it = r.ctors.find(c17::ref_standardise(l));
+                if (it != r.ctors.end())
+                  e.default_text = it->second;
+                r.entries.push_back(e);
+              }
         }
     }
   return v;
 }
 
-//! default object through the interactive path with all answers empty
-std::shared_ptr<RegisteredObjectBase>
-make_default(Reg& r, const std::string& name, std::string& why)
+//! parameter_info() of a default-constructed object (cached; "" + why on failure)
+const std::string&
+default_text(Reg& r, Entry& e, std::string& why)
 {
-  CountingBuf cb_out(200000), cb_err(200000);
-  std::streambuf* old_out = std::cout.rdbuf(&cb_out);
-  std::streambuf* old_err = std::cerr.rdbuf(&cb_err);
-  const auto old_oe = std::cout.exceptions();
-  const auto old_ee = std::cerr.exceptions();
-  std::cout.exceptions(std::ios::badbit);
-  std::cerr.exceptions(std::ios::badbit);
-  std::cin.clear();
-  std::cin.setstate(std::ios::eofbit | std::ios::failbit);
-  std::shared_ptr<RegisteredObjectBase> o;
-  try
+  static std::map<std::string, std::pair<std::string, std::string>> cache;
+  const std::string id = r.name + "/" + e.name;
+  auto it = cache.find(id);
+  if (it == cache.end())
     {
-      o = r.make(nullptr, name);
-      if (!o)
-        why = "factory returned null";
+      std::pair<std::string, std::string> v;
+      if (!e.default_text)
+        v.second = "registered type is not in the harness table of default constructors";
+      else
+        {
+          try
+            {
+              v.first = e.default_text();
+            }
+          catch (const stir_verif::AssertionFailure& ex)
+            {
+              v.second = std::string("assertion in default construction: ") + ex.what();
+            }
+          catch (const std::exception& ex)
+            {
+              v.second = std::string("exception in default construction: ") + ex.what();
+            }
+        }
+      it = cache.emplace(id, v).first;
     }
-  catch (const std::exception& e)
-    {
-      why = std::string("exception: ") + e.what();
-      o.reset();
-    }
-  std::cout.exceptions(std::ios::goodbit);
-  std::cerr.exceptions(std::ios::goodbit);
-  std::cout.clear();
-  std::cerr.clear();
-  std::cout.rdbuf(old_out);
-  std::cerr.rdbuf(old_err);
-  std::cout.exceptions(old_oe);
-  std::cerr.exceptions(old_ee);
-  return o;
+  why = it->second.second;
+  return it->second.first;
 }
 
 std::shared_ptr<RegisteredObjectBase>
@@ -370,6 +538,71 @@ noisy_key(const std::string& key, SplitMix& g)
 
 bool g_last_nontrivial = false;
 
+//! which registry a "... := None" parsing key most likely belongs to (a wrong guess only costs a rejected case)
+int
+guess_registry_for_key(const std::string& key_std)
+{
+  auto& R = registries();
+  auto find = [&](const char* n) {
+    for (std::size_t i = 0; i < R.size(); ++i)
+      if (R[i].name == n)
+        return int(i);
+    return -1;
+  };
+  auto has = [&](const char* t) { return key_std.find(t) != std::string::npos; };
+  if (has("prior"))
+    return find("GeneralisedPrior<DiscretisedDensity<3,float>>");
+  if (has("projector pair"))
+    return find("ProjectorByBinPair");
+  if (has("forward projector"))
+    return find("ForwardProjectorByBin");
+  if (has("back projector"))
+    return find("BackProjectorByBin");
+  if (has("matrix type"))
+    return find("ProjMatrixByBin");
+  if (has("normalisation"))
+    return find("BinNormalisation");
+  if (has("objective function"))
+    return find("GeneralisedObjectiveFunction<DiscretisedDensity<3,float>>");
+  if (has("output file format") || has("output format"))
+    return find("OutputFileFormat<DiscretisedDensity<3,float>>");
+  if (has("filter") || has("processor"))
+    return find("DataProcessor<DiscretisedDensity<3,float>>");
+  if (has("shape"))
+    return find("Shape3D");
+  if (has("scatter simulation"))
+    return find("ScatterSimulation");
+  return -1;
+}
+
+// Entries excluded by construction because of a confirmed defect (work/notes/C17_findings.md); VERIF_NO_EXCLUDE=1 runs them.
+//  F1: ChainedBinNormalisation::post_processing dereferences the null apply_first/apply_second when the two
+//      "Bin Normalisation to apply ..." keys are absent or None (segmentation fault instead of an error)
+std::string
+excluded_signature(const std::string& reg, const std::string& name_std, const std::string& text)
+{
+  if (c17::no_exclude())
+    return "";
+  if (reg == "BinNormalisation" && name_std == "chained")
+    {
+      // both nested keys must name a type for the defect not to trigger
+      int named = 0;
+      for (const std::string& l : c17::split_lines(text))
+        {
+          const auto p = l.find(":=");
+          if (p == std::string::npos)
+            continue;
+          const std::string k = c17::ref_standardise(l.substr(0, p));
+          const std::string v = c17::ref_standardise(l.substr(p + 2));
+          if ((k == "bin normalisation to apply first" || k == "bin normalisation to apply second") && !v.empty() && v != "none")
+            ++named;
+        }
+      if (named < 2)
+        return "C17:registry:BinNormalisation/Chained:null sub-normalisation";
+    }
+  return "";
+}
+
 json
 gen(Src& s, int size)
 {
@@ -382,6 +615,8 @@ gen(Src& s, int size)
   for (int i = 0; i < n; ++i)
     edits.push_back({ int(s.range(0, 199)), int(s.range(0, 19)), int(s.range(0, 11)) });
   c["edits"] = edits;
+  // optional: give one "<something> := None" parsing key a registered type with that type's default block
+  c["nest"] = s.chance(1, 3) ? json::array({ int(s.range(0, 31)), int(s.range(0, 63)) }) : json::array();
   c["noise"] = s.chance(1, 2) ? long(s.range(1, 1 << 30)) : 0L;
   return c;
 }
@@ -394,24 +629,59 @@ check(const json& c)
   auto& R = registries();
   Reg& r = R[std::size_t(c["reg"].get<int>()) % R.size()];
   if (r.entries.empty())
-    return Result::reject("registry without entries: " + r.name);
-  const std::string name = r.entries[std::size_t(c["ent"].get<int>()) % r.entries.size()];
+    {
+      stats().count("registry without entries in this build: " + r.name);
+      return Result::reject("registry without entries: " + r.name);
+    }
+  Entry& ent = r.entries[std::size_t(c["ent"].get<int>()) % r.entries.size()];
+  const std::string name = ent.name;
   const std::string id = r.name + "/" + name;
   stats().cls("registry:" + r.name);
 
-  // the round trip is about Release behaviour of the parser; internal assertions stay on (a failed one is a finding)
+  // internal assertions stay on: a failed one on generated text is reported (class ASSERT)
   std::string why;
-  auto o0 = make_default(r, name, why);
-  if (!o0)
+  const std::string t0 = default_text(r, ent, why);
+  if (t0.empty())
     {
       stats().count("skipped (no default object): " + id + " :: " + why.substr(0, 120));
       return Result::reject("no default object: " + id + " :: " + why.substr(0, 160));
     }
-  const std::string t0 = o0->parameter_info();
 
   // ---- generated text G
   std::vector<std::string> lines = c17::split_lines(t0);
   int changed_lines = 0;
+  // nested object: replace "key := None" by "key := <Name>" followed by <Name>'s default block
+  if (c.contains("nest") && c["nest"].size() == 2)
+    {
+      std::vector<std::size_t> none_lines;
+      for (std::size_t i = 0; i < lines.size(); ++i)
+        {
+          const Line l = split_line(lines[i]);
+          if (l.has_assign && c17::ref_standardise(l.value) == "none")
+            none_lines.push_back(i);
+        }
+      if (!none_lines.empty())
+        {
+          const std::size_t i = none_lines[std::size_t(c["nest"][0].get<int>()) % none_lines.size()];
+          const Line l = split_line(lines[i]);
+          const int ri = guess_registry_for_key(c17::ref_standardise(l.key));
+          if (ri >= 0 && !R[std::size_t(ri)].entries.empty())
+            {
+              Reg& nr = R[std::size_t(ri)];
+              Entry& ne = nr.entries[std::size_t(c["nest"][1].get<int>()) % nr.entries.size()];
+              std::string nwhy;
+              const std::string nt = default_text(nr, ne, nwhy);
+              if (!nt.empty())
+                {
+                  std::vector<std::string> block = c17::split_lines(nt);
+                  lines[i] = l.key + ":= " + ne.name;
+                  lines.insert(lines.begin() + std::ptrdiff_t(i) + 1, block.begin(), block.end());
+                  ++changed_lines;
+                  stats().cls("nested parsing object given a type");
+                }
+            }
+        }
+    }
   // candidate lines: "key := value" with a numeric / numeric-list value
   std::vector<std::size_t> cand;
   for (std::size_t i = 0; i < lines.size(); ++i)
@@ -435,6 +705,14 @@ check(const json& c)
       }
   const std::string G = c17::join_lines(lines);
   const bool edited = changed_lines > 0;
+
+  const std::string sig = excluded_signature(r.name, c17::ref_standardise(name), G);
+  if (!sig.empty())
+    {
+      stats().excluded_known++;
+      stats().count("excluded:" + sig);
+      return Result::reject("known:" + sig);
+    }
 
   auto o1 = parse_text(r, name, G, why);
   if (!o1)
@@ -472,7 +750,6 @@ check(const json& c)
           const Line s = split_line(l);
           if (!s.has_assign || s.key.find_first_not_of(" \t") == std::string::npos)
             continue;
-          // leave lines alone that are the first line of a nested object's value (none: nested names are values)
           std::string k = s.key;
           const auto b = k.find_last_not_of(" \t");
           k = k.substr(0, b + 1);
@@ -516,7 +793,7 @@ enumerate(uint64_t idx, int, json& c)
   for (int pass = 0; pass < 2; ++pass)
     for (std::size_t ri = 0; ri < R.size(); ++ri)
       {
-        const uint64_t n = R[ri].entries.size();
+        const uint64_t n = R[ri].entries.empty() ? 1 : R[ri].entries.size();
         if (k < n)
           {
             c = json::object();
@@ -525,6 +802,7 @@ enumerate(uint64_t idx, int, json& c)
             c["edits"] = json::array();
             if (pass == 1)
               c["edits"].push_back({ int(k * 7 + ri), 0, int(k) });
+            c["nest"] = json::array();
             c["noise"] = pass == 1 ? long(1000 + k) : 0L;
             return true;
           }
